@@ -18,6 +18,10 @@ def signature(msg, case_lines):
 # 2 = regDownstreamBlocking may feed a stage whose ready waits for valid (-> reduceWidth): such chains can get stuck for good.
 #     Eventual delivery is not part of C16's statement: the driver counts these as observations (`obs` in the evidence);
 #     beats that are *lost* (everything idle, emitted < specified) are a PROPFAIL `lost:<stage>` in every stream.
+# 8 = also the shapes of Packet.h's widthExtend/widthReduce that are wrong on the unchanged tree (not in the default streams; findings
+#     reported to the coordinator): widthExtend ratio>1 on streams with Sop (`seq:pext:sop`, `law:pext`, `frame:*`), ByteEnable
+#     groups wider than 1 bit or ratios that are no power of two through either (`seq:pext:be`, `seq:pred:be`, build errors).
+#     To enable: add e.g. [100, 400, 8] to the stream lists below.
 # 4 = mostly chains with reduceWidth directly followed by delay(n>=1) (finding F5, fixed in /repo 553e604; must stay green).
 vlib.standard_check({
     "prop": "C16",
@@ -35,7 +39,8 @@ vlib.standard_check({
     "extra_cov": lambda t: {"observations_not_part_of_the_property": t.get("obs", {}), "propfail_signatures": t.get("fails", {})},
     "rule": "random chains (length 1..6) of the real stages regDownstream, regDownstreamBlocking, regReady, regDecouple, delay(0..3), stall, "
             "fifo(minDepth 2..9, latency 0/1/2/3/DontCare), extendWidth(1,2,3,4,8), reduceWidth(1,2,3,4,6,8) over 6 stream types "
-            "(RvStream<UInt>, RvPacketStream<UInt>, +TxId+Error, +Sop+Empty, RvStream<UInt,ByteEnable>, RvPacketStream<UInt,ByteEnable,TxId>; "
+            "(RvStream<UInt>, RvPacketStream<UInt>, +TxId+Error, +Sop+Empty, RvStream<UInt,ByteEnable>, RvPacketStream<UInt,ByteEnable,TxId>, and the packet-framed "
+            "RvPacketStream<UInt,Sop,TxId>, <UInt,Empty,Error>, <UInt,EmptyBits>, <UInt,Sop,Empty,ByteEnable> with packets of 1..N beats, also through Packet.h widthExtend/widthReduce; "
             "byte enables: one bit per 1..32 payload bits or two per group, narrow-side group <= 8 bits), head width 1..60, random payload, byte enables and meta signals; "
             "law-abiding producer with random / bursty / sparse validity, consumer ready random / bursty / periodic / a combinational "
             "function of the offered valid (ready only while valid, ready dropping when valid rises, ...), random stall conditions, "
